@@ -319,6 +319,8 @@ void Var::operator=(const Var& v)
 		memcpy(_s->data(), v._s->data(), v._s->length());
 		return;
 	}
+	// v may be an element or property of this var: keep our container alive until v has been copied
+	Var keep(_type == ARRAY || _type == OBJ ? *this : none);
 	if(_type == ARRAY && v._type == ARRAY) {
 		(*_a) = (*v._a);
 		return;
